@@ -36,6 +36,8 @@ const (
 	argNilErr                 // Int, zap.NamedError(k, nil) (= no-op), String
 	argNSFail                 // Namespace, Object(marshaler that adds one member and then fails), Int
 	argArrFail                // Int, Array(marshaler that appends one element and then fails), String
+	argRefl                   // Reflect(struct{N int; S string}), Int
+	argNSRefl                 // Namespace, Reflect(struct)
 	argAgain                  // the very slice object handed to the latest earlier With/WithLazy/WithOptions(Fields) step (a fresh [Int] if none)
 	argNone
 )
@@ -115,6 +117,24 @@ var failSyms = []symbol{
 
 func isFailSym(s symbol) bool { return s.arg == argNSFail || s.arg == argArrFail }
 
+// a field that goes through the reflection encoder
+var reflSyms = []symbol{
+	{"WithRefl", opWith, argRefl, ""},
+	{"WithNSRefl", opWith, argNSRefl, ""},
+	{"LazyRefl", opWithLazy, argRefl, ""},
+	{"LazyNSRefl", opWithLazy, argNSRefl, ""},
+	{"FieldsRefl", opFieldsOpt, argRefl, ""},
+	{"FieldsNSRefl", opFieldsOpt, argNSRefl, ""},
+}
+
+func isReflSym(s symbol) bool { return s.arg == argRefl || s.arg == argNSRefl }
+
+// reflVal is serialised by the encoder's reflection fallback (encoding/json).
+type reflVal struct {
+	N int
+	S string
+}
+
 func isSliceSym(s symbol) bool { return s.arg == argSkip || s.arg == argNilErr || s.arg == argAgain }
 
 func isSepName(s symbol) bool { return s.op == opNamed && strings.Contains(s.nm, ".") }
@@ -131,6 +151,11 @@ func symByName(n string) (symbol, bool) {
 		}
 	}
 	for _, s := range failSyms {
+		if s.name == n {
+			return s, true
+		}
+	}
+	for _, s := range reflSyms {
 		if s.name == n {
 			return s, true
 		}
@@ -209,6 +234,7 @@ const (
 	kMut
 	kObjFail // Object with a failing marshaler: {"k":1} and "<key>Error":"boom"
 	kArrFail // Array with a failing marshaler: [1] and "<key>Error":"boom"
+	kRefl    // Reflect(key, reflVal{N: i, S: s}): {"N":i,"S":"s"}
 	kSkip    // a no-op field (zap.Skip() / NamedError(k, nil)): renders nothing, an observer keeps it as given
 )
 
@@ -231,6 +257,8 @@ func (f fspec) field() zap.Field {
 		return zap.String(f.key, f.s)
 	case kNS:
 		return zap.Namespace(f.key)
+	case kRefl:
+		return zap.Reflect(f.key, reflVal{int(f.i), f.s})
 	case kObjFail:
 		return zap.Object(f.key, failObj{})
 	case kArrFail:
@@ -266,6 +294,8 @@ func toSugar(fs []fspec) []interface{} {
 			out = append(out, zap.Namespace(f.key))
 		case kMut:
 			out = append(out, f.key, f.m)
+		case kRefl:
+			out = append(out, f.key, reflVal{int(f.i), f.s})
 		case kObjFail:
 			out = append(out, f.key, failObj{})
 		case kArrFail:
@@ -299,6 +329,16 @@ func (r *runner) argFields(i int, a argKind, lazy bool) []fspec {
 		return []fspec{
 			{kind: kMut, key: "o" + strconv.Itoa(i), m: m, e: &evalRec{at: -1, lazy: lazy}, step: i},
 			{kind: kInt, key: p + "a", i: int64(100*i + 1), step: i},
+		}
+	case argRefl:
+		return []fspec{
+			{kind: kRefl, key: "v" + strconv.Itoa(i), i: int64(10*i + 7), s: "r" + strconv.Itoa(i), step: i},
+			{kind: kInt, key: p + "a", i: int64(100*i + 1), step: i},
+		}
+	case argNSRefl:
+		return []fspec{
+			{kind: kNS, key: "n" + strconv.Itoa(i), step: i},
+			{kind: kRefl, key: "v" + strconv.Itoa(i), i: int64(10*i + 7), s: "r" + strconv.Itoa(i), step: i},
 		}
 	case argNSFail:
 		return []fspec{
@@ -343,10 +383,11 @@ const (
 	famJSONDyn // json core on an AtomicLevel that is above Fatal during every derivation
 	famTeeDyn  // tee(json, observer), both on the same such AtomicLevel
 	famTeeJJ   // tee(json, json): two sinks, both checked
+	famTeeJC   // tee(json, console): two sinks, both checked
 	nFam
 )
 
-var famNames = [nFam]string{"json", "console", "tee(json,observer)", "sampler(json)", "hooked(json)", "increase-level(json)", "lazy(json)", "observer", "json@AtomicLevel(off while deriving)", "tee(json,observer)@AtomicLevel(off while deriving)", "tee(json,json)"}
+var famNames = [nFam]string{"json", "console", "tee(json,observer)", "sampler(json)", "hooked(json)", "increase-level(json)", "lazy(json)", "observer", "json@AtomicLevel(off while deriving)", "tee(json,observer)@AtomicLevel(off while deriving)", "tee(json,json)", "tee(json,console)"}
 
 const (
 	fmtJSON = iota
@@ -463,6 +504,12 @@ func (r *runner) newFixture(fam int) *fixture {
 	case famTeeJJ:
 		// every branch evaluates a marshaler for itself: no count is demanded
 		fx.core = pre(zapcore.NewTee(jsonCore(), jsonCore()))
+		fx.evalDemand = false
+	case famTeeJC:
+		cs := &sink{format: fmtConsole}
+		jc := jsonCore()
+		fx.sinks = append(fx.sinks, cs)
+		fx.core = pre(zapcore.NewTee(jc, zapcore.NewCore(zapcore.NewConsoleEncoder(encCfg), cs, zapcore.DebugLevel)))
 		fx.evalDemand = false
 	case famObserver:
 		oc, logs := observer.New(zapcore.DebugLevel)
@@ -722,6 +769,10 @@ func (r *runner) exec(c caseDesc) (fail *failure) {
 		var cs []fspec
 		if e.cs {
 			cs = []fspec{{kind: kInt, key: "c", i: int64(evNo), step: -1}, {kind: kStr, key: "d", s: "x", step: -1}}
+			if e.round >= 2 && !strings.HasSuffix(c.variant, ":2r") {
+				// later rounds: the call-site field c goes through the reflection encoder
+				cs[0] = fspec{kind: kRefl, key: "c", i: int64(evNo), s: "cs", step: -1}
+			}
 		}
 		touch(fx.rootFields, evNo)
 		touch(n.fields, evNo)
@@ -971,6 +1022,8 @@ func (a *argRec) changed() string {
 						ok = ok && sp.kind == kStr && v == sp.s
 					case *mut:
 						ok = ok && sp.kind == kMut && v == sp.m
+					case reflVal:
+						ok = ok && sp.kind == kRefl && v == reflVal{int(sp.i), sp.s}
 					case failObj:
 						ok = ok && sp.kind == kObjFail
 					case failArr:
@@ -1101,6 +1154,13 @@ func renderExpected(b []byte, format int, name, msg string, fs []fspec) []byte {
 			b = append(b, colon...)
 			b = strconv.AppendInt(b, int64(f.e.at), 10)
 			b = append(b, '}')
+		case kRefl:
+			// the reflected value is written as encoding/json produced it: compact also on the console
+			b = append(b, `{"N":`...)
+			b = strconv.AppendInt(b, f.i, 10)
+			b = append(b, `,"S":"`...)
+			b = append(b, f.s...)
+			b = append(b, `"}`...)
 		case kObjFail, kArrFail:
 			if f.kind == kObjFail {
 				b = append(b, `{"k"`...)
@@ -1135,6 +1195,8 @@ func fieldString(f zapcore.Field) string {
 		return f.Key + "=<skip>"
 	case zapcore.ArrayMarshalerType:
 		return f.Key + "=failing-array"
+	case zapcore.ReflectType:
+		return fmt.Sprintf("%s=reflect%v", f.Key, f.Interface)
 	case zapcore.ObjectMarshalerType:
 		if m, ok := f.Interface.(*mut); ok {
 			return fmt.Sprintf("%s=obj#%d", f.Key, m.id)
@@ -1165,6 +1227,8 @@ func fieldsTree(dst *jsonx.Node, fs []fspec) {
 			o.Add("id", jsonx.N(strconv.Itoa(f.m.id)))
 			o.Add("v", jsonx.N(strconv.Itoa(f.e.at)))
 			cur.Add(f.key, o)
+		case kRefl:
+			cur.Add(f.key, jsonx.O().Add("N", jsonx.N(strconv.FormatInt(f.i, 10))).Add("S", jsonx.S(f.s)))
 		case kObjFail:
 			cur.Add(f.key, jsonx.O().Add("k", jsonx.N("1")))
 			cur.Add(f.key+"Error", jsonx.S("boom"))
